@@ -26,6 +26,8 @@ BAD_STATEMENTS = [
     ("bad-match-regex", {"k": "raw", "text": 'match E5(x=regex("("))'}),
     ("bad-match-variable", {"k": "raw", "text": "match E5(x=$undefined_zz)"}),
     ("bad-match-reference", {"k": "raw", "text": "match $undefined_ref.Finished()"}),
+    ("bad-match-reference-none", {"k": "raw", "text": "$noref_zz = None\n@IND@match $noref_zz.Finished()"}),
+    ("bad-match-reference-not-an-object", {"k": "raw", "text": "$noref_zz = 5\n@IND@match $noref_zz.Finished()"}),
     ("division-by-zero", {"k": "assign", "var": "$bad", "expr": "1 / 0"}),
     # errors that only fire when an event of that name arrives (match time), in shapes where the faulty flow - or a flow it
     # started - has ANOTHER head waiting for the same event: the candidate list of that event then holds several heads of
@@ -37,6 +39,8 @@ BAD_STATEMENTS = [
     ("bad-match-and-group", {"k": "raw", "text": 'match E5(x=regex("(")) and E5()'}),
 ]
 MATCH_TIME = ["bad-match-regex", "bad-match-compare", "bad-match-regex-in-or-group", "bad-match-regex-second-in-or-group", "bad-match-with-child-on-same-event", "bad-match-and-group"]
+# match statements whose error fires when the head ARRIVES on them (the event reference cannot be resolved), not when an event comes
+ARRIVAL_TIME = ("bad-match-reference", "bad-match-reference-none", "bad-match-reference-not-an-object")
 BAD_BY_NAME = dict(BAD_STATEMENTS)
 
 WITNESS = [
@@ -367,6 +371,10 @@ class C10(InterpProp):
                     mt = MATCH_TIME[(pi // 3 + d.index(len(MATCH_TIME), "mtphase")) % len(MATCH_TIME)]
                     if mt not in pick:
                         pick = pick + [mt]
+                if pi % 4 == 1:
+                    at = ARRIVAL_TIME[(pi // 4) % len(ARRIVAL_TIME)]
+                    if at not in pick:
+                        pick = pick + [at]
                 for n in pick:
                     todo.append([list(pos), n])
         else:
@@ -440,7 +448,7 @@ class C10(InterpProp):
                     break
             else:
                 # (b) reported as ColangError: if the run diverged from the twin because of the planted statement, a ColangError must have been seen
-                if reached and not name.startswith("bad-match") and not any(s["err"] for s in steps) and not any(s["escaped"] for s in steps):
+                if reached and (not name.startswith("bad-match") or name in ARRIVAL_TIME) and not any(s["err"] for s in steps) and not any(s["escaped"] for s in steps):
                     out.violate("error-not-reported", name, "bad statement %s planted in %s: the run diverged from the twin at step %d but no ColangError event was observed by the watcher flow" % (name, where, first_div), pin=pin)
         out.interleaving = ("faulty", len(positions))
         out.sample = {"batch": "faulty-flow", "program": program_brief(sc), "deliveries": sc["deliveries"], "positions": len(positions), "executions": out.evaluations,
